@@ -10,7 +10,8 @@
 import json, os, random, time
 import vlib
 
-GROUPS = {"C01": "ChanTraceR01.cfg", "C05": "ChanTraceR05.cfg", "C09": "ChanTraceR09.cfg"}
+GROUPS = {"C01": "ChanTraceR01.cfg", "C05": "ChanTraceR05.cfg", "C09": "ChanTraceR09.cfg",
+          "C10": "ChanTraceR10.cfg", "C12": "ChanTraceR12.cfg"}
 AMT_CLASS = {100000: "dust", 400000: "dust-edge", 600000: "big"}
 
 
@@ -36,7 +37,7 @@ def convert_script(s, chan_type, rng):
             ops.append(o)
     ops += [{"op": "reconnect", "a": 0, "b": 1}, {"op": "deliver_all"}]
     ops += [{"op": "claim" if rng.random() < 0.6 else "fail", "pay": k} for k in range(npay)]
-    ops += [{"op": "deliver_all"}, {"op": "proj"}]
+    ops += [{"op": "deliver_all"}, {"op": "proj", "final": True}]
     value = rng.choice([100000, 1000000])
     return {"cfg": {"nodes": 2, "chan_type": chan_type, "value": value, "push": value * 500,
                     "feerate": rng.choice([253, 1000])}, "ops": ops}
@@ -73,6 +74,20 @@ def panic_group(msg):
     if "chainmonitor" in m or "monitor update" in m or "monitorupdate" in m:
         return "C09"
     return "C01"
+
+
+def panic_groups(msg, run_events):
+    """A panic after a restart / while reading persisted state belongs to the restart properties."""
+    g = {panic_group(msg)}
+    m = (msg or "").lower()
+    crashed = [e for e in run_events if e.get("ev") == "crash"]
+    if crashed:
+        g.add("C12" if all(e.get("reload") for e in crashed) else "C10")
+        if any(e.get("reload") for e in crashed):
+            g.add("C12")
+    if "decodeerror" in m or "round" in m or "serializ" in m or "assertion `left == right` failed" in m and "monitor" in m:
+        g.add("C12")
+    return g
 
 
 def selftest(pid, wd, tpath):
@@ -119,6 +134,20 @@ def selftest(pid, wd, tpath):
             m[k]["uid"] += 1
             muts.append(("C09-update-id-gap", m))
             break
+    for k, r in enumerate(recs):
+        if r["ev"] == "persist" and r.get("has_update"):
+            m = clone()
+            m[k]["rt"]["monitor"] = False
+            muts.append(("C12-roundtrip-inequality", m))
+            break
+    for k, r in enumerate(recs):
+        # a node that restarted with a stale manager (channel closed) is made to sign again
+        if r["ev"] == "event" and r.get("kind") == "ChannelClosed" and r.get("reason") == "OutdatedChannelManager":
+            m = clone()
+            m.insert(k + 1, {"ev": "msg", "from": r["node"], "to": 1 - r["node"] if r["node"] < 2 else 1, "kind": "revoke_and_ack",
+                             "chan": r["chan"], "secret_point": 1, "next_point": 2, "run": r["run"], "seq": 0})
+            muts.append(("C10-stale-channel-resumed", m))
+            break
     rejected = 0
     names = []
     for name, m in muts:
@@ -148,7 +177,8 @@ def selftest(pid, wd, tpath):
     return {"mutations": len(muts), "rejected": rejected, "kinds": names}
 
 
-def run_check(pid, tier, seed, mc_cfgs, profiles, thorough_profiles, assumptions, mc_types=("static",)):
+def run_check(pid, tier, seed, mc_cfgs, profiles, thorough_profiles, assumptions, mc_types=("static",),
+              mc_actions=("MAdd", "MSendCS", "MSendRAA", "MDeliver")):
     t0 = time.time()
     wd = vlib.workdir(pid)
     bins = vlib.build(["channet"])
@@ -161,7 +191,7 @@ def run_check(pid, tier, seed, mc_cfgs, profiles, thorough_profiles, assumptions
         r = vlib.tlc_mc(pid, "ChanMC", cfg, workers=12, timeout=3000 if thorough else 900)
         if r["violated"]:
             raise vlib.ToolError("design model violates %s in %s (spec needs correction)" % (r["violated"], cfg))
-        vlib.require_coverage(r, ["MAdd", "MSendCS", "MSendRAA", "MDeliver"], cfg)
+        vlib.require_coverage(r, list(mc_actions), cfg)
         got = vlib.tlc_printed(r["out"], "SCRIPT")
         vlib.log("[mc] %s: %d distinct states, %d generated, depth %d, %d scripts, %.0fs" %
                  (cfg, r["distinct"], r["states"], r["depth"], len(got), r["wall_s"]))
@@ -202,7 +232,7 @@ def run_check(pid, tier, seed, mc_cfgs, profiles, thorough_profiles, assumptions
         for k, fl in enumerate(fails):
             ev = fl["rec"]
             if ev.get("ev") == "panic":
-                groups = {panic_group(ev.get("msg"))}
+                groups = panic_groups(ev.get("msg"), fl["run_events"])
             else:
                 groups = attribute(pid, wd, fl, "%s-%d" % (bname, k))
             mine = (pid in groups) or not groups
@@ -228,7 +258,7 @@ def run_check(pid, tier, seed, mc_cfgs, profiles, thorough_profiles, assumptions
     st = None
     if nviol == 0:
         # self-test on an async trace if there is one (it contains every kind of event)
-        cand = [os.path.join(wd, "trace-%s.ndjson" % b[0]) for b in batches if b[0].startswith("async")]
+        cand = [os.path.join(wd, "trace-%s.ndjson" % b[0]) for b in batches if b[0].startswith(("async", "crash"))]
         st = selftest(pid, wd, (cand or [first_trace])[0])
         vlib.log("[selftest] %s" % st)
 
